@@ -23,10 +23,25 @@ Theorem C20_start_guards_translated :
           "frost_sameParties"; "frost_Keygen"; "frost_KeygenTaproot"; "frost_Refresh"; "frost_RefreshTaproot"; "frost_Sign";
           "frost_SignTaproot"; "frost_keygen_StartKeygenCommon"; "frost_sign_StartSignCommon"; "doerner_Keygen";
           "doerner_RefreshReceiver"; "doerner_RefreshSender"; "doerner_SignReceiver"; "doerner_SignSender";
-          "doerner_keygen_StartKeygen"; "doerner_sign_StartSignReceiver"; "doerner_sign_StartSignSender"] = true
+          "doerner_keygen_StartKeygen"; "doerner_sign_StartSignReceiver"; "doerner_sign_StartSignSender"; "example_StartXOR"] = true
   /\ validators_untranslatable = [].
 Proof. exact start_translated. Qed.
 Print Assumptions C20_start_guards_translated.
+
+(* every function below protocols/ that returns a protocol.StartFunc (auto-discovered) is among the translated ones *)
+Theorem C20_start_guards_start_functions_complete :
+  go_start_functions =
+  [ "protocols/cmp/keygen: Start"; "protocols/cmp/presign: StartPresign"; "protocols/cmp/presign: StartPresignOnline";
+    "protocols/cmp/sign: StartSign"; "protocols/cmp: Keygen"; "protocols/cmp: Presign"; "protocols/cmp: PresignOnline";
+    "protocols/cmp: Refresh"; "protocols/cmp: Sign"; "protocols/doerner/keygen: StartKeygen";
+    "protocols/doerner/sign: StartSignReceiver"; "protocols/doerner/sign: StartSignSender"; "protocols/doerner: Keygen";
+    "protocols/doerner: RefreshReceiver"; "protocols/doerner: RefreshSender"; "protocols/doerner: SignReceiver";
+    "protocols/doerner: SignSender"; "protocols/doerner: startError"; "protocols/example: StartXOR";
+    "protocols/frost/keygen: StartKeygenCommon"; "protocols/frost/sign: StartSignCommon"; "protocols/frost: Keygen";
+    "protocols/frost: KeygenTaproot"; "protocols/frost: Refresh"; "protocols/frost: RefreshTaproot"; "protocols/frost: Sign";
+    "protocols/frost: SignTaproot"; "protocols/frost: startError" ].
+Proof. exact start_functions_complete. Qed.
+Print Assumptions C20_start_guards_start_functions_complete.
 
 Theorem C20_start_guards_startError :
   go_frost_startError_body = "{ return func([]byte) (round.Session, error) { return nil, err } }" /\
@@ -190,6 +205,17 @@ Theorem C20_start_guards_doerner_Sign : forall grp v self other m,
 Proof. exact doerner_Sign. Qed.
 Print Assumptions C20_start_guards_doerner_Sign.
 
+(* ---- protocols/example *)
+Theorem C20_start_guards_example_StartXOR : forall ids self,
+  geval (alookup (env_xor ids self)) go_example_StartXOR = Some (xor_start ids self).
+Proof. exact example_StartXOR. Qed.
+Print Assumptions C20_start_guards_example_StartXOR.
+
+Theorem C20_start_guards_xor_iff : forall ids self,
+  xor_start ids self = true <-> NoDup ids /\ (forall id, In id ids -> id_ok None id = true) /\ In self ids.
+Proof. exact xor_start_iff. Qed.
+Print Assumptions C20_start_guards_xor_iff.
+
 (* ---- what is handed to NewSession, and where *)
 Theorem C20_start_guards_session_infos :
   session_info go_cmp_Keygen_lits = (Some "selfID", Some "participants", Some "threshold", Some "group") /\
@@ -201,7 +227,8 @@ Theorem C20_start_guards_session_infos :
   session_info go_frost_sign_StartSignCommon_lits = (Some "result.ID", Some "signers", Some "result.Threshold", Some "result.PublicKey.Curve()") /\
   session_info go_doerner_keygen_StartKeygen_lits = (Some "selfID", Some "party.NewIDSlice([]party.ID{selfID, otherID})", Some "1", Some "group") /\
   session_info go_doerner_sign_StartSignReceiver_lits = (Some "selfID", Some "party.NewIDSlice([]party.ID{selfID, otherID})", Some "1", Some "config.Group()") /\
-  session_info go_doerner_sign_StartSignSender_lits = (Some "selfID", Some "party.NewIDSlice([]party.ID{selfID, otherID})", Some "1", Some "config.Group()").
+  session_info go_doerner_sign_StartSignSender_lits = (Some "selfID", Some "party.NewIDSlice([]party.ID{selfID, otherID})", Some "1", Some "config.Group()") /\
+  session_info go_example_StartXOR_lits = (Some "selfID", Some "partyIDs", None, None).
 Proof. exact start_session_infos. Qed.
 Print Assumptions C20_start_guards_session_infos.
 
